@@ -131,11 +131,84 @@ def run(tier):
                 meta[c["id"]] = feat
             if len(chk.samples) < 3 and rows * cols <= 20:
                 chk.sample({"features": feat, "in": cs[0]["d"], "bad": cs[0]["bad"], "out": cs[0]["out"]["d"]})
+    # ---- median_for_intervals with regularisation, applied 1..3 times (relational: against the same filter without it) ----
+    from pandora import filter as pfilter
+    from vp.project import enc_int, enc_rank
+    for k in range(12 if tier == "quick" else 120):
+        rows, cols = int(rng.randint(3, 9)), int(rng.randint(6, 16))
+        d = (rng.randint(-8, 9, size=(rows, cols)) / 2.0).astype(np.float32)
+        vm = np.where(rng.rand(rows, cols) < 0.15, rng.choice([1, 64, 256], size=(rows, cols)), rng.choice([0, 0, 4, 8], size=(rows, cols)))
+        invalid = (vm & 0b1111000011) != 0
+        amb = rng.choice([0.0, 0.2, 0.5, 0.9, 1.0], size=(rows, cols)).astype(np.float32)
+        inf = d - rng.randint(0, 4, size=(rows, cols))
+        sup = d + rng.randint(0, 4, size=(rows, cols))
+        inf[invalid] = np.nan
+        sup[invalid] = np.nan
+        names = ["confidence_from_ambiguity", "confidence_from_interval_bounds_inf", "confidence_from_interval_bounds_sup"]
+        fs = int([1, 3][k % 2])
+        reps = 1 + k % 3
+        cfg0 = {"filter_method": "median_for_intervals", "filter_size": fs}
+        cfg1 = dict(cfg0, regularization=True, ambiguity_threshold=float([0.4, 0.6, 0.95][k % 3]), ambiguity_kernel_size=int([1, 3, 5][k % 3]),
+                    vertical_depth=int(k % 3), quantile_regularization=1.0)
+        feat = {"method": "median_for_intervals", "regularization": True, "repetitions": reps, "rows": rows, "cols": cols}
+        chk.count(("reg", rows, cols, fs, reps, k))
+        try:
+            a = build.make_disp(d, vm=vm, conf=(names, np.stack([amb, inf, sup], axis=2)))
+            b = build.make_disp(d, vm=vm, conf=(names, np.stack([amb, inf, sup], axis=2)))
+            # the median part is idempotent on neither run, so both runs apply the median the same number of times
+            for _ in range(reps):
+                pfilter.AbstractFilter(cfg=dict(cfg0), image_shape=(rows, cols), step=1).filter_disparity(a)
+            for j in range(reps):
+                pfilter.AbstractFilter(cfg=dict(cfg1) if j == reps - 1 else dict(cfg0), image_shape=(rows, cols), step=1).filter_disparity(b)
+            # repeated REGULARISATION on the same dataset (what a pipeline with filter, filter.1 does): flags must stay sets
+            c = build.make_disp(d, vm=vm, conf=(names, np.stack([amb, inf, sup], axis=2)))
+            for _ in range(reps):
+                pfilter.AbstractFilter(cfg=dict(cfg1), image_shape=(rows, cols), step=1).filter_disparity(c)
+        except Exception as exc:  # pylint: disable=broad-except
+            chk.violation("total", dict(method="median_for_intervals", exception=type(exc).__name__, smaller_than_filter=False),
+                          {"features": feat, "exception": repr(exc)[:300]}, f"median_for_intervals raised on {feat}")
+            continue
+        for tag, run1 in (("one", b), ("rep", c)):
+            st = np.stack([a["confidence_measure"].data[:, :, 1], a["confidence_measure"].data[:, :, 2],
+                           run1["confidence_measure"].data[:, :, 1], run1["confidence_measure"].data[:, :, 2]])
+            enc = enc_rank(st)
+            cid = f"reg{k}{tag}"
+            cases.append({"id": cid, "step": "regularize", "rows": rows, "cols": cols, "inf0": enc[0], "sup0": enc[1], "inf1": enc[2], "sup1": enc[3],
+                          "vm0": enc_int(vm), "vm1": enc_int(run1["validity_mask"].data), "strict": tag == "one",
+                          "frame_other": bool(same_bits(a["disparity_map"].data, run1["disparity_map"].data)
+                                              and same_bits(a["confidence_measure"].data[:, :, 0], run1["confidence_measure"].data[:, :, 0]))})
+            meta[cid] = dict(feat, rows=rows, cols=cols, variant=tag)
+            if tag == "rep" and reps > 1:
+                # with repeated regularisation the bands are compared with the unregularised run only for widening
+                pass
+    # ---- a fully invalid, grid-aligned 100x100 block followed by valid blocks (block bookkeeping) ----------------------------------
+    for (rows, cols, fsz) in ([(106, 160, 3)] if tier == "quick" else [(106, 160, 3), (108, 230, 5), (210, 106, 3), (150, 250, 3)]):
+        try:
+            d = (rng.randint(-12, 13, size=(rows, cols)) / 4.0).astype(np.float32)
+            vm = np.zeros((rows, cols), dtype=int)
+            vm[0:104, 0:104] = 64       # covers every centre pixel of the first 100x100 processing block, whatever the radius
+            if rows > 204 and cols > 104:
+                vm[100:204, 0:104] = 1
+            ds = build.make_disp(d, vm=vm)
+            before = ds["disparity_map"].data.copy()
+            pfilter.AbstractFilter(cfg={"filter_method": "median", "filter_size": fsz}, image_shape=(rows, cols), step=1).filter_disparity(ds)
+            n += 1
+            cid = f"blk{n}"
+            bad = (vm & 0b1111000011) != 0
+            ei = np.asarray(enc_scaled(before, 8), dtype=np.int64)
+            eo = np.asarray(enc_scaled(ds["disparity_map"].data, 8), dtype=np.int64)
+            cases.append({"id": cid, "step": "filter", "method": "median", "w": fsz, "rows": rows, "cols": cols, "mode": "exact",
+                          "bad": bad.tolist(), "d": ei.tolist(), "out": {"d": eo.tolist(), "mask_ok": True, "frame_other": True}})
+            meta[cid] = {"method": "median", "rows": rows, "cols": cols, "invalid_block": True}
+            chk.count(("invalid_block", rows, cols, fsz))
+        except Exception as exc:  # pylint: disable=broad-except
+            chk.violation("total", dict(method="median", exception=type(exc).__name__, smaller_than_filter=False), {"exception": repr(exc)[:300]}, "")
     verdicts = chk.tlc_cases("PipelineTrace", "PipelineTrace.cfg", cases, label="c10", chunk=10, parallel=14, heap="6g", timeout=2400)
     for cid, v in verdicts.items():
         for clause in v["failed"]:
             m = meta[cid]
-            chk.violation(clause, {"clause": clause, "method": m["method"], "blocks": bool(max(m["rows"], m["cols"]) > 50)},
+            chk.violation(clause, {"clause": clause, "method": m["method"], "blocks": bool(max(m["rows"], m["cols"]) > 50),
+                                   "repetitions": m.get("repetitions", 1)},
                           {"features": m, "detail": v["detail"]}, f"{cid}: {clause} {v['detail']} {m}")
     chk.rule = ("maps of shapes {1..5}x{1..6} and strips/squares with a dimension in {1..4, 49..52, 99..102} x method (median 1/3/5, bilateral "
                 "sigma_space 0.4/1.0/2.0, median_for_intervals 3/5) x invalid density (0, 10 %, 60 %, 100 %) x exact/rank value mode; "
